@@ -191,6 +191,7 @@ PROPS = {
         "assumptions": ["the last PES of a stream incarnation may be lost when the same PID is removed and re-added (new continuity counter)"],
         "units": [
             rap("roundtrip", "^TestC01RoundTrip$", 3000, 25000, 4, 16, qscale=8, tscale=5),
+            rap("pmt_fill", "^TestC01PMTFill$", 1500, 15000, 2, 8),
         ],
     },
     "C17": {
